@@ -54,6 +54,7 @@ type Run struct {
 	assumptions []string
 	panics      int64
 	panicSample string
+	fallbackSamples int
 	inconcl     []string
 
 	evals    atomic.Int64
@@ -171,6 +172,18 @@ func (r *Run) newLocal(batch int) *Local {
 }
 
 func (r *Run) merge(l *Local) {
+	// fallback sample: the last case this batch executed (an actual case of this run)
+	if l.cur != nil && l.evals > 0 {
+		r.mu.Lock()
+		need := r.fallbackSamples < 2
+		if need {
+			r.fallbackSamples++
+		}
+		r.mu.Unlock()
+		if need {
+			r.Sample("last-case-of-batch-"+strconv.Itoa(l.Batch), l.cur())
+		}
+	}
 	r.evals.Add(l.evals)
 	r.nontrivN.Add(l.nontrivN)
 	r.mu.Lock()
@@ -332,6 +345,9 @@ func (r *Run) Finish(minNontrivial int64) {
 	ev := r.evals.Load()
 	if !r.Replaying() && r.Phase != "coverage" && distinct < minNontrivial {
 		r.inconcl = append(r.inconcl, fmt.Sprintf("monitor observed only %d distinct non-trivial cases (floor %d)", distinct, minNontrivial))
+	}
+	if len(r.samples) == 0 && !r.Replaying() && r.Phase == "main" {
+		r.inconcl = append(r.inconcl, "no sample case was recorded")
 	}
 	if r.panics > 0 && r.Prop != "C17" {
 		r.inconcl = append(r.inconcl, fmt.Sprintf("%d case(s) lost to panics in the code under test, first: %s", r.panics, truncate(r.panicSample, 1500)))
